@@ -106,3 +106,14 @@ PROPS['C01'] = dict(
     assumptions=['A1', 'A2', 'A3', 'A4', 'A8', 'A11'],
     explanation='per-node search under contract; occupancy invariant over grant/release being added',
     clauses={'no core twice / shares <= 1 / lfs, mem within node (one node, one call)': 'P'})
+
+PROPS['C02'] = dict(
+    level='proof',
+    claim='Continuous.schedule_task and _find_resources verified for every node list, occupancy and request: a granted placement has exactly the requested ranks, every rank lies on one existing node with exactly the requested distinct free cores, GPU amount, lfs and mem; colocated tasks only on nodes used for the tag; per-rank needs above a node raise instead of shrinking',
+    note='_iterate_nodes (a generator) by assumed contract: yields every node exactly once; ranks_per_node clause and the application-level finder (resource_config.Node) not yet under contract',
+    assumptions=['A1', 'A2', 'A3', 'A4', 'A6', 'A8', 'A9', 'A11'],
+    trusted_base=['Continuous._iterate_nodes (generator): assumed to yield a permutation of self.nodes'],
+    explanation='shape postconditions of the two placement functions',
+    clauses={'exact ranks / one node per rank / requested cores, GPUs, lfs, mem': 'P',
+             'colocate history respected': 'P', 'oversized per-rank request rejected': 'P',
+             'ranks_per_node limit': 'not yet stated', 'resource_config.Node.find_slot': 'not yet built'})
